@@ -30,6 +30,9 @@ from collections import Counter
 from pathlib import Path
 
 VERIF = Path(__file__).resolve().parent.parent
+# where evidence/ and replays/ are written (redirected when trying a mutant so that the
+# committed evidence is never overwritten by a run against a modified tree)
+OUT = Path(os.environ.get('HPL_VERIF_OUT', str(VERIF)))
 REPO = Path(os.environ.get('HPL_VERIF_REPO', '/repo'))
 NPROC = int(os.environ.get('HPL_VERIF_JOBS', '16'))
 
@@ -206,7 +209,7 @@ def finish(check_id, tier, total: Result, describe: dict, wall_s: float, level='
     status = 0
     known_met = []
     new = []
-    rdir = VERIF / 'replays' / check_id
+    rdir = OUT / 'replays' / check_id
     for sig in sorted(by_sig):
         v = by_sig[sig]
         if sig in known_sigs:
@@ -224,7 +227,7 @@ def finish(check_id, tier, total: Result, describe: dict, wall_s: float, level='
                     'witness': v['witness'],
                     'detail': v['detail'],
                     'cases_with_this_signature': counts[sig],
-                    'replay_cmd': f'./check {check_id} --replay {path.relative_to(VERIF)}',
+                    'replay_cmd': f'./check {check_id} --replay {path}',
                 },
                 indent=1,
                 default=str,
@@ -266,8 +269,8 @@ def finish(check_id, tier, total: Result, describe: dict, wall_s: float, level='
         'wall_s': round(wall_s, 3),
         'violations': len(new),
     }
-    edir = VERIF / 'evidence'
-    edir.mkdir(exist_ok=True)
+    edir = OUT / 'evidence'
+    edir.mkdir(parents=True, exist_ok=True)
     (edir / f'{check_id}.json').write_text(json.dumps(ev, indent=1, default=str) + '\n')
     print(
         f'{check_id} {tier}: evaluations={evaluations} states={coverage["states"]} '
